@@ -17,6 +17,7 @@
 (* bounded domain, and every case becomes one implementation test.         *)
 (***************************************************************************)
 EXTENDS Integers, Sequences, TLC
+CONSTANT HighLiteral     \* TRUE: escape() after fix (non-printable characters above 0xff written as they are); FALSE: pinned shape
 
 Esc == 27   Del == 127   Bsl == 92   DQ == 34   SQ == 39   Dash == 45
 
@@ -30,9 +31,12 @@ Enmeta(c) == IF (c \div 128) % 2 = 1 THEN c ELSE c + 128
 Demeta(c) == IF (c \div 128) % 2 = 1 THEN c - 128 ELSE c
 IsControl(c) == c < 32
 IsMeta(c) == c > 127 /\ c <= 255
+\* code points above 0xff that are NOT printable (representatives: ZERO WIDTH JOINER, a private-use character, LINE
+\* SEPARATOR, a tag character): joiners of emoji families and of Persian / Indic text, icon-font glyphs, ...
+NonPrintHigh == {8205, 57344, 8232, 917607}
 \* unicode.IsPrint on the domain used here: ASCII graphic + space, and the printable
 \* representatives above 0xff
-IsPrint(c) == (c >= 32 /\ c <= 126) \/ c > 255
+IsPrint(c) == (c >= 32 /\ c <= 126) \/ (c > 255 /\ c \notin NonPrintHigh)
 
 At(s, i) == IF i <= Len(s) THEN s[i] ELSE 0
 
@@ -61,6 +65,8 @@ Decode(s, i) ==
             IF c3 = 0 THEN <<Esc>> ELSE <<Enmeta(c3)>> \o Decode(s, i + 4)
       [] OTHER -> (IF c1 = 0 THEN <<>> ELSE <<c1>>) \o Decode(s, i + 2)
 
+RECURSIVE HexAll(_)
+HexAll(c) == LET d(n) == IF n < 10 THEN 48 + n ELSE 87 + n IN IF c < 16 THEN <<d(c)>> ELSE HexAll(c \div 16) \o <<d(c % 16)>>
 Hex2(c) == LET d(n) == IF n < 10 THEN 48 + n ELSE 87 + n IN <<d(c \div 16), d(c % 16)>>
 
 \* escape() of one code point; delSpelling / retSpelling are the notation strings used for DEL and RET
@@ -75,6 +81,11 @@ EncodeOne(c, delSpelling, retSpelling) ==
            c2 == IF met THEN Demeta(c1) ELSE c1
            pre == (IF ctl THEN <<Bsl, 67, Dash>> ELSE <<>>) \o (IF met THEN <<Bsl, 77, Dash>> ELSE <<>>)
        IN IF IsPrint(c2) /\ c2 \notin {Bsl, DQ, SQ} THEN pre \o <<c2>>
+          ELSE IF c > 255
+          THEN \* the hexadecimal notation has two digits: what is not printable above 0xff has no notation.  Repaired
+               \* shape (HighLiteral): written as it is; pinned shape: \x followed by ALL its hexadecimal digits, which
+               \* Decode reads back as a two-digit code followed by text
+               IF HighLiteral THEN <<c>> ELSE <<Bsl, 120>> \o HexAll(c)
           ELSE <<Bsl, 120>> \o Hex2(c)       \* not printable even without its modifiers, or needing an escape
                                              \* itself (\C-\ followed by M- would be ambiguous): plain \xHH
 
